@@ -109,6 +109,25 @@ func c17(c *Ctx) {
 	}
 	R.Min("R17.1", "limit-relevant insert sites", n, 8)
 
+	// ---- R17.5 what is counted ---------------------------------------------------------------
+	R.Explain("R17.5", "the quantities compared with the limits are the real ones: the statements behind the reads that feed the limit checks (GetMailboxCount, GetMailboxMessageCount - also used by GetMailboxMessageCountAndUID) count every row of the table (`SELECT COUNT(*) FROM <table>` without WHERE/JOIN/GROUP): rows that merely carry a flag (\\Deleted, hidden, ...) still occupy the mailbox.")
+	resSQL := c.sqlAnalysis()
+	nq := 0
+	for _, st := range resSQL.stmts {
+		if st.fn == nil || st.mig {
+			continue
+		}
+		fnName := engine.ShortName(topFn(st.fn))
+		if fnName != "GetMailboxCount" && fnName != "GetMailboxMessageCount" {
+			continue
+		}
+		nq++
+		up := strings.ToUpper(st.text)
+		okq := strings.Contains(up, "COUNT(*)") && !strings.Contains(up, " WHERE ") && !strings.Contains(up, " JOIN ") && !strings.Contains(up, " GROUP ") && !strings.Contains(up, " LIMIT ")
+		R.Check(okq, "R17.5", c.name(st.fn)+"|count statement", st.pos, "counts all rows", "the count that feeds the limit check is filtered ("+st.text+"): rows excluded by the filter do not count against the maximum, so the mailbox can hold more than the limit")
+	}
+	R.Min("R17.5", "count statements feeding limit checks", nq, 2)
+
 	// ---- R17.4 the connector is told only about operations that fit ------------------------
 	R.Explain("R17.4", "refusal before any remote effect: every call through the state's Connector that makes the remote side grow (CreateMailbox, CreateMessage, AddMessagesToMailbox, MoveMessagesFromMailbox) is dominated by the limit check for what it is about to add, in the same transaction; for a call inside a loop the check must stand before the loop and cover the whole batch (a per-iteration check lets the first iterations reach the connector before a later one is refused).  Otherwise a refused command leaves the remote changed, and the connector's echo later applies part of it.")
 	remote := map[string]growth{
